@@ -5,6 +5,8 @@ from . import conn_gen, conn_mon, c01
 
 ID = "C05"
 ENGINE = "conn"
+# companion pass: an <a/> that was queued must not be lost through the send-queue API (engine q, C06's generator)
+ALSO = [("c06", 1500)]
 VARIANT = "std"
 STATEFUL = True
 LEVEL = "proof"
